@@ -268,3 +268,11 @@ def run(ctx):
     r2_r3_hash_and_gate(ctx)
     r4_failures_emitted(ctx)
     r5_nothing_skipped(ctx)
+    # shared with C01-R7: "and nothing else" — a row whose content is rewritten by an upsert
+    # that forgets to rewrite its stored commit_hash is reported as corrupted although nobody touched it
+    from . import c01
+    c01.r7_upsert_complete(ctx)
+    ctx.rules[-1].id = "C16-R6"
+    for inst in ctx.rules[-1].instances:
+        inst["rule"] = "C16-R6"
+        inst["key"] = inst["key"].replace("C01-R7|", "C16-R6|", 1)
